@@ -455,6 +455,8 @@ def lower_bytecode(fn, ci, selfname=None):
                 S.append(("bx", "none", a, bool(i.arg)))
             elif a == ("const", None) and b[0] in ("reg", "param"):
                 S.append(("bx", "none", b, bool(i.arg)))
+            elif a[0] in ("reg", "param") and b[0] in ("reg", "param"):
+                S.append(("bx", "same", (a, b), bool(i.arg)))
             else:
                 S.append(OTHER)
         elif op == "UNARY_NOT":
@@ -562,6 +564,8 @@ def lower_bytecode(fn, ci, selfname=None):
 
 def _cond_ins(kind, v, sense, tgt, k, pos):
     """conditional jump on abstract value v.  -> (Ins, successors)"""
+    if kind == "same":
+        return Ins("cj", kind, v, tgt, sense, pos=pos), [k + 1, tgt]
     if v[0] == "const":
         val = (v[1] is None) if kind == "none" else bool(v[1])
         if val == sense:
@@ -646,6 +650,9 @@ class _AstLower:
             kind, v, neg = v[1], v[2], v[3]
             if neg:
                 sense = not sense
+        if kind == "same":
+            self.emit(Ins("cj", kind, v, lab, sense, pos=pos))
+            return
         if v[0] == "const":
             val = (v[1] is None) if kind == "none" else bool(v[1])
             if val == sense:
@@ -1037,6 +1044,8 @@ class _AstLower:
                 return ("bx", "none", a, neg)
             if a == ("const", None) and b[0] in ("reg", "param"):
                 return ("bx", "none", b, neg)
+            if a[0] in ("reg", "param") and b[0] in ("reg", "param"):
+                return ("bx", "same", (a, b), neg)
         return OTHER
 
     def ev_not(self, n):
@@ -1375,6 +1384,13 @@ def link(name, top, resolver, max_depth=6):
                 out.append(Ins("jmp", c=e if e is not None else ABORT, pos=i.pos))
             elif op == "jmp":
                 out.append(Ins("jmp", c=labs[i.c], pos=i.pos))
+            elif op == "cj" and i.a == "same":
+                v1 = _subst(i.b[0], args, mir.defaults, prefix)
+                v2 = _subst(i.b[1], args, mir.defaults, prefix)
+                if v1[0] == "reg" and v2[0] == "reg":
+                    out.append(Ins("cj", "same", (v1, v2), labs[i.c], i.d, pos=i.pos))
+                else:
+                    out.append(Ins("nd", c=labs[i.c], pos=i.pos))
             elif op == "cj":
                 v = _subst(i.b, args, mir.defaults, prefix)
                 if v[0] == "const":
@@ -1476,7 +1492,7 @@ def slice_programs(progs):
             used = set()
             for k in rel[pi]:
                 i = p.code[k]
-                for v in (i.a, i.b):
+                for v in (i.a, i.b) + (tuple(i.b) if (i.op == "cj" and i.a == "same") else ()):
                     if isinstance(v, tuple) and v and v[0] == "reg":
                         used.add(v[1])
             for k, i in enumerate(p.code):
@@ -1666,8 +1682,11 @@ class Bmc:
         if i.op == "nop":
             return self.resolve(prog, p + 1, regs, ndv, depth + 1)
         if i.op == "cj":
-            x = self.val(i.b, regs, prog)
-            c = (x == self.V(self.NONE)) if i.a == "none" else self.truthy(x)
+            if i.a == "same":
+                c = self.val(i.b[0], regs, prog) == self.val(i.b[1], regs, prog)
+            else:
+                x = self.val(i.b, regs, prog)
+                c = (x == self.V(self.NONE)) if i.a == "none" else self.truthy(x)
             if not i.d:
                 c = z3.Not(c)
             return z3.If(c, self.resolve(prog, i.c, regs, ndv, depth + 1), self.resolve(prog, p + 1, regs, ndv, depth + 1))
@@ -1695,7 +1714,7 @@ class Bmc:
         return out
 
     # -- one thread's events -------------------------------------------------------------
-    def thread_events(self, a, upd, act, prog, pc, regs, tid, ndv, fk):
+    def thread_events(self, a, upd, act, prog, pc, regs, tid, ndv, fk, window=None):
         """a: current state; upd: dict of pending next-state expressions (mutated: shared components);
         returns (enabled, nextpc, newregs)"""
         T = self.T
@@ -1705,6 +1724,8 @@ class Bmc:
         for p, ins in enumerate(prog.code):
             op = ins.op
             if op not in EVENT_OPS:
+                continue
+            if window is not None and not window(p):
                 continue
             self.transitions += 1
             here = pc == self.P(p)
@@ -1807,6 +1828,8 @@ class Bmc:
         ndv = [z3.Bool("nd%d" % k) for k in range(B)]
         fk = z3.BitVec("fault", self.fb) if self.nfault else None
         self.S, self.who, self.ndv, self.fk = S, who, ndv, fk
+        # sequential system (timers never fire): the caller's k-th step can only execute instructions at depth k
+        seqwin = depth_windows(self.main) if not self.firing else None
         s0 = S[0]
         init = [x == UNBORN for x in s0["ts"]] + [x == 0 for x in s0["tg"]]
         for a_ in self.attrs:
@@ -1831,7 +1854,10 @@ class Bmc:
             # main thread
             mact = w == self.MAINTID
             main_live = z3.And(a["mpc"] != self.P(END), a["mpc"] != self.P(ABORT))
-            en, npc, nregs = self.thread_events(a, upd, mact, self.main, a["mpc"], a["mreg"], self.MAINTID, ndv[k], fk)
+            window = None
+            if seqwin is not None:
+                window = (lambda p, k=k: p in seqwin[0] and seqwin[0][p] <= k <= seqwin[1][p])
+            en, npc, nregs = self.thread_events(a, upd, mact, self.main, a["mpc"], a["mreg"], self.MAINTID, ndv[k], fk, window)
             enabled.append(z3.And(mact, main_live, en))
             s.add(b["mpc"] == z3.If(mact, npc, a["mpc"]))
             for j in range(len(a["mreg"])):
@@ -1971,8 +1997,18 @@ class Bmc:
         return out, final
 
 
-def longest_path(prog):
-    """max number of events on any path entry -> terminal (programs are DAGs after unrolling)"""
+def longest_path(prog, cyclic=None):
+    """max number of events on any path entry -> terminal (programs are DAGs after unrolling);
+    `cyclic`: value returned for programs with loops (default: LoweringError)"""
+    try:
+        return _longest_path(prog)
+    except LoweringError:
+        if cyclic is None:
+            raise
+        return cyclic
+
+
+def _longest_path(prog):
     code = prog.code
     memo = {}
 
@@ -1996,6 +2032,54 @@ def longest_path(prog):
         memo[p] = r
         return r
     return f(getattr(prog, "entry", 0))
+
+
+def depth_windows(prog):
+    """for a DAG program executed by a single thread: (dmin, dmax) = least/greatest number of events
+    executed before event p can be reached"""
+    code = prog.code
+
+    def next_events(p, seen=()):
+        if p in (END, ABORT) or p is None or p >= len(code) or p in seen:
+            return set()
+        i = code[p]
+        if i.op == "jmp":
+            return next_events(i.c, seen + (p,))
+        if i.op == "nop":
+            return next_events(p + 1, seen + (p,))
+        if i.op == "cj":
+            return next_events(i.c, seen + (p,)) | next_events(p + 1, seen + (p,))
+        return {p}
+    succ = {}
+    for p, i in enumerate(code):
+        if i.op in EVENT_OPS:
+            sset = next_events(p + 1)
+            if i.op == "nd":
+                sset |= next_events(i.c)
+            if i.err is not None:
+                sset |= next_events(i.err)
+            succ[p] = sset
+    dmin, dmax = {}, {}
+    start = next_events(getattr(prog, "entry", 0))
+    work = [(q, 0) for q in start]
+    # longest/shortest distances on a DAG by relaxation (programs are small)
+    guard = 0
+    while work:
+        guard += 1
+        if guard > 500000:
+            raise LoweringError("depth analysis does not terminate (cycle?)")
+        q, d = work.pop()
+        ch = False
+        if q not in dmin or d < dmin[q]:
+            dmin[q] = d
+            ch = True
+        if q not in dmax or d > dmax[q]:
+            dmax[q] = d
+            ch = True
+        if ch:
+            for r in succ[q]:
+                work.append((r, d + 1))
+    return dmin, dmax
 
 
 # ---------------------------------------------------------------------------------------
